@@ -90,7 +90,7 @@ class FileSystemLoader(BaseLoader):
     def _uptodate(source_path: Path, mtime: float) -> bool:
         try:
             return mtime == source_path.stat().st_mtime
-        except FileNotFoundError:
+        except (FileNotFoundError, NotADirectoryError):
             # The file has gone. Report it as stale so it is looked up again.
             return False
 
